@@ -18,8 +18,7 @@ ERR = "libwild::error::Error"
 POPPERS = {"crossbeam_queue::ArrayQueue::pop", "crossbeam_queue::SegQueue::pop", "std::vec::Vec::pop",
            "<crossbeam_queue::SegQueue as std::iter::IntoIterator>::into_iter",
            "<crossbeam_queue::ArrayQueue as std::iter::IntoIterator>::into_iter",
-           "std::vec::Vec::remove", "std::vec::Vec::swap_remove", "<[T]>::first", "<[T]>::last",
-           "core::slice::<impl [T]>::first", "core::slice::<impl [T]>::last"}
+           "std::vec::Vec::remove", "std::vec::Vec::swap_remove", "core::slice::first", "core::slice::last"}
 PUSHERS = {"crossbeam_queue::ArrayQueue::push", "crossbeam_queue::SegQueue::push", "std::vec::Vec::push",
            "crossbeam_queue::ArrayQueue::force_push"}
 SORTS = ("sort", "sort_by", "sort_by_key", "sort_unstable", "sort_unstable_by", "sort_unstable_by_key", "sort_by_cached_key")
